@@ -38,7 +38,7 @@ PROOF_FAILURE_PATTERNS = (
     "could not prove termination", "might not be allowed", "unable to prove", "fails to satisfy",
 )
 LOG_MACROS = ("trace", "debug", "info", "warn", "error")
-SUBST_KINDS = ("closure-contract", "std-wrap", "std-wrap-all", "verus-syntax", "split-or-guard", "for-ghost-iter", "assoc-type", "eta-ctor")
+SUBST_KINDS = ("closure-contract", "std-wrap", "std-wrap-all", "verus-syntax", "split-or-guard", "for-ghost-iter", "assoc-type", "eta-ctor", "enumerate-iter-mut")
 
 
 class ExtractError(Exception):
@@ -349,6 +349,38 @@ def extract_fn(repo, d, template_text):
             tr.append({"kind": kind, "old": old, "new": new, "occurrences": cnt})
             continue
         whole = sig + body
+        if kind == "enumerate-iter-mut":
+            # Desugaring of `for (I, X) in E.iter_mut().enumerate() { BODY }` over a slice / boxed slice / Vec `E` into the
+            # index loop `for I in IT: 0..E.len() { BODY[*X := E[I], X. := E[I].] }`. Trusted rule (std semantics: the
+            # adapter yields (i, &mut E[i]) for i = 0..len in order); checked mechanically: the header shapes, and that
+            # the loop variable X occurs in BODY only as `*X` or `X.` and E does not occur in BODY at all.
+            mo = re.match(r"^for\s*\(\s*(\w+)\s*,\s*(\w+)\s*\)\s+in\s+(.+?)\s*\.iter_mut\(\)\s*\.enumerate\(\)$", rustscan.norm_ws(old))
+            mn = re.match(r"^for\s+(\w+)\s+in\s+(\w+)\s*:\s*0\s*\.\.\s*(.+?)\s*\.len\(\)$", rustscan.norm_ws(new))
+            if not mo or not mn or mo.group(1) != mn.group(1) or rustscan.norm_ws(mo.group(3)) != rustscan.norm_ws(mn.group(3)):
+                raise ExtractError("enumerate-iter-mut: header shapes do not correspond")
+            idx, var, coll = mo.group(1), mo.group(2), rustscan.norm_ws(mo.group(3))
+            rx, _ = _meta_regex(old)
+            ms = list(re.finditer(rx, whole))
+            if len(ms) != 1:
+                raise ExtractError(f"lost anchor: SUBST enumerate-iter-mut header occurs {len(ms)} times (needs exactly 1): {old[:80]!r}")
+            mask = rustscan.code_mask(whole)
+            bo = whole.index("{", ms[0].end())
+            bc = rustscan.match_close(whole, mask, bo)
+            lbody = whole[bo:bc + 1]
+            if re.search(re.escape(coll).replace(r"\ ", r"\s*"), lbody):
+                raise ExtractError("enumerate-iter-mut: the collection is used inside the loop body")
+            n_deref = len(re.findall(r"\*\s*%s\b" % re.escape(var), lbody))
+            n_meth = len(re.findall(r"(?<![\w*])%s\s*\." % re.escape(var), lbody))
+            n_all = len(re.findall(r"\b%s\b" % re.escape(var), lbody))
+            if n_all != n_deref + n_meth:
+                raise ExtractError("enumerate-iter-mut: the loop variable is used other than as `*x` or `x.`")
+            elem = f"{coll}[{idx}]"
+            lbody2 = re.sub(r"\*\s*%s\b" % re.escape(var), elem, lbody)
+            lbody2 = re.sub(r"(?<![\w*\]])%s\s*\." % re.escape(var), elem + ".", lbody2)
+            whole = whole[:ms[0].start()] + new + whole[ms[0].end():bo] + lbody2 + whole[bc + 1:]
+            sig, body = _resplit(whole)
+            tr.append({"kind": kind, "old": rustscan.norm_ws(old), "new": rustscan.norm_ws(new), "element": elem, "rewritten_uses": n_all})
+            continue
         if kind == "std-wrap-all":
             # every occurrence of a receiver expression is routed through a trusted accessor
             rx, _ = _meta_regex(old)
@@ -817,7 +849,7 @@ class Unit:
             fb = breakdown.get(f["key"]) or breakdown.get(f["fn"])
             secs = (fb or {}).get("time", 0) / 1000.0 if fb else 0.0
             pristine = f["pin"] is not None and f["rec"]["sha256"].startswith(f["pin"])
-            common_kw = dict(fn=f"{f['rec']['file']}:{f['fn']}", functions=[f"{f['rec']['file']}:{f['fn']}"],
+            common_kw = dict(fn=f"{f['rec']['file']}:{f.get('key') or f['fn']}", functions=[f"{f['rec']['file']}:{f.get('key') or f['fn']}"],
                              extraction=f["rec"], seconds=secs, desc=self.desc.get(f["key"], self.desc.get(f["fn"], "")),
                              rlimit=(fb or {}).get("rlimit"))
             if not f["has_spec"]:
